@@ -79,8 +79,15 @@ fn float_eq(a: f64, b: f64) -> bool {
         // relative error is less meaningful here.
         diff < (f64::EPSILON * f64::MIN_POSITIVE)
     } else {
-        // use relative error.
-        diff / (abs_a + abs_b) < f64::EPSILON
+        // use relative error; the sum of two large magnitudes overflows to
+        // infinity (and would make any two such numbers "equal"), so the
+        // operands are halved in that case.
+        let sum = abs_a + abs_b;
+        if sum.is_finite() {
+            diff / sum < f64::EPSILON
+        } else {
+            (diff / 2.0) / (abs_a / 2.0 + abs_b / 2.0) < f64::EPSILON
+        }
     }
 }
 
